@@ -127,7 +127,17 @@ class Engine:
 
     def _check_loops(self):
         loops = self.func.loops()
+        fps = [loop_fingerprint(l) for l in loops]
+        self.loop_specs = {}
         for k, spec in self.c.loops.items():
+            if (k >= len(loops) or fps[k] != spec.fingerprint) and fps.count(spec.fingerprint) == 1:
+                # loops were added or removed before this one: the header is unchanged, bind by header
+                j = fps.index(spec.fingerprint)
+                self.loop_specs[j] = spec
+                self.rebound.append(f"loop #{k} '{spec.fingerprint}' is now loop #{j}")
+                continue
+            if k < len(loops):
+                self.loop_specs[k] = spec
             if k >= len(loops):
                 # the loop is gone: its invariants bind to nothing; the function is verified without them (a missing
                 # invariant can only make obligations fail, never prove them)
